@@ -1,6 +1,125 @@
-//! C20 — not implemented yet.
+//! C20 (behaviour half) — numeric lifts, casts and approximate equality are per-element;
+//! mint / bytemuck interoperability keeps the fields.
+//!
+//! The feature-configuration build matrix of C20 is a separate tool; nothing here depends on it.
+
+pub mod approxeq;
+pub mod casts;
+pub mod interop;
+pub mod io;
+pub mod lifts;
+
+use io::*;
+use vek::mat::repr_c::column_major as cm;
+use vek::mat::repr_c::row_major as rm;
+use vek::vec::repr_c::{Vec32, Vec64};
 use vkit::*;
 
+/// Zero/One/is_zero on the six matrix types.
+fn zo_mats<T: lifts::ZoS + num_traits::MulAdd<T, T, Output = T>>(idx: u64, cx: &mut Cx) -> CaseResult {
+    let s = T::specials().len() as u64;
+    let tab: [(u64, IdxFn); 6] = [
+        (4 * s, lifts::zo_mat::<T, rm::Mat2<T>, 2>),
+        (9 * s, lifts::zo_mat::<T, rm::Mat3<T>, 3>),
+        (16 * s, lifts::zo_mat::<T, rm::Mat4<T>, 4>),
+        (4 * s, lifts::zo_mat::<T, cm::Mat2<T>, 2>),
+        (9 * s, lifts::zo_mat::<T, cm::Mat3<T>, 3>),
+        (16 * s, lifts::zo_mat::<T, cm::Mat4<T>, 4>),
+    ];
+    dispatch(idx, &tab, cx)
+}
+fn zo_mats_total<T: lifts::ZoS>() -> u64 {
+    58 * T::specials().len() as u64
+}
+
 pub fn property() -> Property {
-    Property { id: "C20", rule: "", assumptions: &[], checks: Vec::new(), max_discard_frac: 0.2 }
+    let mut checks = Vec::new();
+    macro_rules! tape {
+        ($name:expr, $about:expr, $len:expr, $q:expr, $th:expr, $f:expr) => {
+            checks.push(Check { name: $name, about: $about, kind: Kind::Tape { len: $len, quick: $q, thorough: $th, f: $f } });
+        };
+    }
+    macro_rules! index {
+        ($name:expr, $about:expr, $total:expr, $q:expr, $th:expr, $f:expr) => {
+            checks.push(Check { name: $name, about: $about, kind: Kind::Index { total: $total, quick: $q, thorough: $th, f: $f } });
+        };
+    }
+    const ALL: u64 = u64::MAX;
+
+    // ---- lifted integer ops, exhaustive over 8-bit operand pairs per lane position
+    let sweep = "checked_{add,sub,mul,div,rem,neg,div_euclid,rem_euclid}, wrapping_{add,sub,mul,neg}, saturating_{add,sub,mul}, overflowing_{add,sub,mul}, div_euclid/rem_euclid, is_zero: one case = (vector type, lane p, background, x); every y of the 8-bit type is swept inside, (x,y) placed at lane p; backgrounds: benign / the next lane fails on its own / the previous lane fails on its own. Lane i of the result = the scalar trait method on lane i; None iff some lane None; flag iff some lane flag; panic iff some lane panics";
+    index!("lift8-i8", sweep, lifts::SWEEP_SMALL_TOTAL, ALL, ALL, lifts::sweep_small::<i8>);
+    index!("lift8-u8", sweep, lifts::SWEEP_SMALL_TOTAL, ALL, ALL, lifts::sweep_small::<u8>);
+    let edge = "the same sweep on the wide tuple vectors, lanes {0, 1, N/2, N-2, N-1}, all (x,y)";
+    index!("lift8-i8-vec32-edge", edge, 5 * lifts::SWEEP_PER_LANE, ALL, ALL, lifts::sweep_edge::<i8, Vec32<i8>, 32>);
+    index!("lift8-u8-vec32-edge", edge, 5 * lifts::SWEEP_PER_LANE, ALL, ALL, lifts::sweep_edge::<u8, Vec32<u8>, 32>);
+    index!("lift8-i8-vec64-edge", edge, 5 * lifts::SWEEP_PER_LANE, ALL, ALL, lifts::sweep_edge::<i8, Vec64<i8>, 64>);
+    index!("lift8-u8-vec64-edge", edge, 5 * lifts::SWEEP_PER_LANE, ALL, ALL, lifts::sweep_edge::<u8, Vec64<u8>, 64>);
+    let wide = "the same sweep on the wide tuple vectors over every lane (quick: seeded sample of (lane, background, x); thorough: all)";
+    index!("lift8-i8-vec32-all", wide, 32 * lifts::SWEEP_PER_LANE, 768, ALL, lifts::sweep_all::<i8, Vec32<i8>, 32>);
+    index!("lift8-u8-vec32-all", wide, 32 * lifts::SWEEP_PER_LANE, 768, ALL, lifts::sweep_all::<u8, Vec32<u8>, 32>);
+    index!("lift8-i8-vec64-all", wide, 64 * lifts::SWEEP_PER_LANE, 768, ALL, lifts::sweep_all::<i8, Vec64<i8>, 64>);
+    index!("lift8-u8-vec64-all", wide, 64 * lifts::SWEEP_PER_LANE, 768, ALL, lifts::sweep_all::<u8, Vec64<u8>, 64>);
+
+    // ---- sampled for the wider integer types
+    let sampled = "the same lifted ops on all 13 vector types for a wider integer type: small benign lanes, 1..3 hot lanes with stratified operands (limits, 2^k+-1, 0, -1, random)";
+    tape!("lift-sampled-i16", sampled, 96, 20_000, 600_000, lifts::sampled::<i16>);
+    tape!("lift-sampled-i32", sampled, 96, 20_000, 600_000, lifts::sampled::<i32>);
+    tape!("lift-sampled-i64", sampled, 96, 20_000, 600_000, lifts::sampled::<i64>);
+    tape!("lift-sampled-u32", sampled, 96, 20_000, 600_000, lifts::sampled::<u32>);
+    tape!("lift-sampled-u64", sampled, 96, 20_000, 600_000, lifts::sampled::<u64>);
+
+    // ---- Zero / One / is_zero / Inv
+    let zo = "Zero::zero() / One::one() have every lane 0 / 1; is_zero (is_one) iff every lane is zero (one) by the scalar's own is_zero: all 13 vector types, every lane position x special values (0, -0.0, 1, limits, NaN, inf, subnormal) x backgrounds (all zero / all one / distinct)";
+    index!("zero-one-vec-i8", zo, lifts::zo_total::<i8>(), ALL, ALL, lifts::zo_all::<i8>);
+    index!("zero-one-vec-u8", zo, lifts::zo_total::<u8>(), ALL, ALL, lifts::zo_all::<u8>);
+    index!("zero-one-vec-i32", zo, lifts::zo_total::<i32>(), ALL, ALL, lifts::zo_all::<i32>);
+    index!("zero-one-vec-u64", zo, lifts::zo_total::<u64>(), ALL, ALL, lifts::zo_all::<u64>);
+    index!("zero-one-vec-f32", zo, lifts::zo_total::<f32>(), ALL, ALL, lifts::zo_all::<f32>);
+    index!("zero-one-vec-f64", zo, lifts::zo_total::<f64>(), ALL, ALL, lifts::zo_all::<f64>);
+    let zom = "six matrix types: Zero::zero() all elements 0, One::one() the identity, is_zero iff every element zero (every (i,j) x special values)";
+    index!("zero-one-mat-i32", zom, zo_mats_total::<i32>(), ALL, ALL, zo_mats::<i32>);
+    index!("zero-one-mat-u8", zom, zo_mats_total::<u8>(), ALL, ALL, zo_mats::<u8>);
+    index!("zero-one-mat-f32", zom, zo_mats_total::<f32>(), ALL, ALL, zo_mats::<f32>);
+    index!("zero-one-mat-f64", zom, zo_mats_total::<f64>(), ALL, ALL, zo_mats::<f64>);
+    let inv = "Inv::inv on all 13 vector types: lane i = scalar inv of lane i (bit-exact; +-0, inf, NaN, subnormal, MAX in every lane position)";
+    index!("inv-f32", inv, lifts::inv_total::<f32>(), ALL, ALL, lifts::inv_all::<f32>);
+    index!("inv-f64", inv, lifts::inv_total::<f64>(), ALL, ALL, lifts::inv_all::<f64>);
+
+    // ---- casts
+    let cv = "as_ (the `as` operator per lane), numcast (NumCast per lane; None iff some lane None), az / checked_as / saturating_as / wrapping_as / overflowing_as / unwrapped_as (per lane the scalar az trait; None / flag / panic iff some lane) on all 13 vector types, 24 (source, target) scalar pairs; 1..2 lanes hold boundary values (float classes, just inside / outside every integer range, integer limits), the others distinct benign values";
+    tape!("cast-vectors", cv, 16, 48_000, 1_500_000, casts::cast_vectors);
+    let cm_ = "as_ and numcast on the six matrix types, 24 scalar pairs, 1..2 elements at any (i,j) hold boundary values, the others distinct (so transposition shows)";
+    tape!("cast-matrices", cm_, 16, 24_000, 720_000, casts::cast_matrices);
+    let cs = "as_ on LineSegment2/3, Aabr, Aabb: every field converted by the `as` operator, fields keep their places";
+    tape!("cast-shapes", cs, 16, 12_000, 360_000, casts::cast_shapes);
+    let cr = "as_ on Rect / Rect3 with independent position and extent element types: x,y(,z) by the position pair's `as`, w,h(,d) by the extent pair's";
+    tape!("cast-rects", cr, 24, 12_000, 360_000, casts::cast_rects);
+
+    // ---- approximate equality
+    let ap = "abs_diff_eq / relative_eq / ulps_eq (and abs_diff_ne) on 13 vector types, 6 matrix types, quaternion: operands identical except one position (every lane / every (i,j)), which holds one of 24 pairs (0, 1 ulp, eps, 2 eps, 4/5 ulps, sign of zero, NaN, inf vs inf, inf vs -inf, large-relative-small-absolute, ...), both orders; 7 epsilons x 5 max_relative x 6 max_ulps plus the defaults; result = conjunction of the scalar predicate; default_* = the scalar's";
+    index!("approx-one-position-f32", ap, approxeq::ONE_LANE_TOTAL, ALL, ALL, approxeq::one_lane_all::<f32>);
+    index!("approx-one-position-f64", ap, approxeq::ONE_LANE_TOTAL, ALL, ALL, approxeq::one_lane_all::<f64>);
+    let am = "the same predicates with several positions differing (each by its own kind), one tolerance triple per case";
+    tape!("approx-mixed-f32", am, 224, 20_000, 600_000, approxeq::mixed_all::<f32>);
+    tape!("approx-mixed-f64", am, 224, 20_000, 600_000, approxeq::mixed_all::<f64>);
+
+    // ---- interoperability
+    index!("mint", "Vec2/3/4 <-> mint Vector/Point, Quaternion <-> mint::Quaternion (s = w), row- and column-major Mat2/3/4 <-> mint RowMatrixN and ColumnMatrixN: distinct integers, element (i,j) keeps its meaning in all 8 directions", 64, ALL, ALL, interop::mint_case);
+    index!("bytemuck", "Zeroable::zeroed() is all-zero and equals zero() for 13 vector types, 6 matrix types, quaternion; bytes_of lists the fields in declaration order (row-major: rows, column-major: columns) and reads back; cast to arrays for Vec4<f32>/Mat4<f32>", 64, ALL, ALL, interop::bytemuck_case);
+
+    Property {
+        id: "C20",
+        rule: "index checks enumerate a finite space (vector type, lane / element position, background, operand or pair kind) completely in both tiers except the *-all sweeps of Vec32/Vec64 (quick: seeded sample; thorough: complete); tape checks decode proptest byte tapes (vector type, scalar pair, hot positions, boundary values). Non-trivial: lifted ops — across the y sweep the varied lane both fails (None / flag / panic) and succeeds while the other lanes are fixed (sampled: some lane fails); casts — some lane fails the checked / NumCast conversion while the others do not; approx — the varied position makes the predicate false for some tolerance while all other positions are identical (mixed: at least one position differs); zero/one — a single special element on a uniform background",
+        assumptions: &[
+            "rustc and the proptest runner/shrinker are trusted",
+            "the scalar rule is the scalar's own impl of the same trait (num-traits Checked*/Wrapping*/Saturating*/Overflowing*/Euclid/Inv/NumCast, az casts, approx impls for f32/f64); for as_ it is the `as` operator",
+            "vectors, matrices, quaternions and shapes are built and read through their public fields only",
+            "mint's own array conversions (RowMatrixN from rows, ColumnMatrixN from columns) are trusted",
+            "the harness profile has debug-assertions and overflow-checks on, for vek and for az alike, so az::Cast panics on overflow in both the lifted and the scalar call",
+            "only the behaviour half of C20 is decided here; the feature-configuration build matrix is a separate tool",
+        ],
+        checks,
+        max_discard_frac: 0.2,
+    }
 }
